@@ -60,6 +60,10 @@ MUTANTS: List[Tuple[str, List[str], List[Tuple[str, str, str]], str]] = [
      "prefetch permit returned before owning an execution slot"),
     ("prefetch-no-reacquire", ["C04"], [(R, "                if not done:\n                    self.sem_prefetch.release()\n                    continue", "                if not done:\n                    self.sem_prefetch.release()\n                    self.sem_prefetch.release()\n                    continue")],
      "permit inflation: one extra permit per idle poll"),
+    ("api-prefetch-swapped", ["C04"], [("taskiq/api/receiver.py", "                    max_prefetch=max_prefetch,", "                    max_prefetch=max_async_tasks,")],
+     "run_receiver_task passes max_async_tasks as max_prefetch"),
+    ("api-ack-time-dropped", ["C02"], [("taskiq/api/receiver.py", "                    ack_type=ack_time,", "                    ack_type=None,")],
+     "run_receiver_task ignores ack_time"),
     ("wait-without-timeout", ["C05"], [(R, "                        await asyncio.wait(tasks, timeout=self.wait_tasks_timeout)", "                        await asyncio.wait(tasks)")],
      "wait_tasks_timeout ignored"),
     ("break-before-waiting", ["C05"], [(R, "                    if tasks:\n                        logger.info(", "                    if tasks and self.wait_tasks_timeout is not None:\n                        logger.info(")],
